@@ -67,6 +67,138 @@ theorem sticky_decision (k : Key) (d : Dec) (h4 : k.l4 = IPPROTO_TCP ∨ k.l4 = 
       rw [← hd]
       exact this
 
+/-! ## From the first packet to the run: a new flow becomes a tracked flow
+
+These close the chain "decision for the first packet ⇒ `Tracked` ⇒ `sticky_decision`": the entry the
+first frame of a flow leaves behind holds exactly the decision that frame was given (and is not
+flagged WAN-originated), so every later frame follows it. -/
+
+theorem lan_new_tcp_becomes_tracked (rt : RouteIn → Int) (w : World) (s : Skb) (l2 : Bool) (p : Pkt)
+    (hp : parsePacket s.raw l2 = .pkt p) (ht : p.l4proto = IPPROTO_TCP) (hs : p.syn = true) (ha : p.ack = false)
+    (hr : 0 ≤ rt (lanRouteIn s p)) (hc : connRoom w p.tuples.five) :
+    Tracked (lanIngress rt w s l2).1 p.tuples.five (unpackRoute (rt (lanRouteIn s p))) := by
+  rw [lanIngress_pkt rt w s l2 p hp, lanIngressPkt_tcp_syn rt w s l2 p ht hs ha,
+    markTcpSeen_syn_room w p.tuples.five false (p.fin || p.rst) { dscp := p.tuples.dscp } hc]
+  have hl : alookup ({ w with conn := aerase w.conn p.tuples.five ++
+      [(p.tuples.five, newConnState false w.now { dscp := p.tuples.dscp })] } : World).conn p.tuples.five =
+      some (newConnState false w.now { dscp := p.tuples.dscp }) := alookup_erase_append_self _ _ _
+  have hsl : (decide (p.l4proto = IPPROTO_UDP) && shortLivedUdp p.tuples.five) = false := by
+    rw [ht]; rfl
+  exact ⟨_, lanRouteNew_conn rt _ s l2 p _ (lanLocalSocket_tcp_syn _ s p ht hs ha) hr hsl hl, by simp, rfl, rfl⟩
+
+theorem lan_new_udp_becomes_tracked (rt : RouteIn → Int) (w : World) (s : Skb) (l2 : Bool) (p : Pkt)
+    (hp : parsePacket s.raw l2 = .pkt p) (ht : p.l4proto = IPPROTO_UDP)
+    (hsl : shortLivedUdp p.tuples.five = false)
+    (hnew : ∀ cs, udpLive w p.tuples.five = some cs → cs.hasRouting = 0 ∧ cs.wanDir = false)
+    (hc : udpLive w p.tuples.five = none → connRoom w p.tuples.five)
+    (hls : lanLocalSocket w s p = false) (hr : 0 ≤ rt (lanRouteIn s p)) :
+    Tracked (lanIngress rt w s l2).1 p.tuples.five (unpackRoute (rt (lanRouteIn s p))) := by
+  have hnt : p.l4proto ≠ IPPROTO_TCP := by rw [ht]; decide
+  rw [lanIngress_pkt rt w s l2 p hp, lanIngressPkt_udp rt w s l2 p hnt hsl]
+  have hrest := markUdpSeen_rest w p.tuples.five false { dscp := p.tuples.dscp }
+  have hst : ∃ cs, (markUdpSeen w p.tuples.five false { dscp := p.tuples.dscp }).2 = some cs ∧
+      cs.wanDir = false ∧ cs.hasRouting = 0 ∧
+      alookup (markUdpSeen w p.tuples.five false { dscp := p.tuples.dscp }).1.conn p.tuples.five = some cs := by
+    cases hl : udpLive w p.tuples.five with
+    | none =>
+      rw [markUdpSeen_new_room w _ false _ hl (hc hl)]
+      exact ⟨_, rfl, rfl, rfl, alookup_erase_append_self _ _ _⟩
+    | some cs =>
+      rw [markUdpSeen_live w _ false _ cs hl]
+      obtain ⟨t, ht'⟩ := touchUdp_eq cs w.now { dscp := p.tuples.dscp } rfl
+      refine ⟨_, rfl, ?_, ?_, alookup_areplace_self _ _ _ _ (udpLive_lookup w _ cs hl)⟩
+      · rw [ht']; exact (hnew cs hl).2
+      · rw [ht']; exact (hnew cs hl).1
+  obtain ⟨cs, hm, hw, hr0, hlk⟩ := hst
+  rw [lanUdp_untracked rt w s l2 p cs hm hw hr0]
+  have hls' : lanLocalSocket (markUdpSeen w p.tuples.five false { dscp := p.tuples.dscp }).1 s p = false := by
+    rw [lanLocalSocket_congr hrest]; exact hls
+  have hsl' : (decide (p.l4proto = IPPROTO_UDP) && shortLivedUdp p.tuples.five) = false := by simp [hsl]
+  exact ⟨_, lanRouteNew_conn rt _ s l2 p cs hls' hr hsl' hlk, by simp, hw, rfl⟩
+
+/-- a new TCP connection of a local process: tracked with its decision — or, when routed plain direct,
+left without any decision (so that `undecided_tcp_flow_passes` applies to the rest of it) -/
+theorem wan_new_tcp_becomes_tracked (rt : RouteIn → Int) (w : World) (s : Skb) (l2 : Bool) (p : Pkt)
+    (hi : s.ingressIf = 0) (hp : parsePacket s.raw l2 = .pkt p) (ht : p.l4proto = IPPROTO_TCP)
+    (hs : p.syn = true) (ha : p.ack = false) (hcp : (pidIsControlPlane w s).isCp = false)
+    (hr : 0 ≤ rt (wanRouteIn s p true (ppName (pidIsControlPlane w s).pp) (if l2 then p.ethSrc else zeros 6)))
+    (hc : connRoom w p.tuples.five) :
+    let d := unpackRoute (rt (wanRouteIn s p true (ppName (pidIsControlPlane w s).pp) (if l2 then p.ethSrc else zeros 6)))
+    (¬ (d.ob = OUTBOUND_DIRECT ∧ d.mark = 0 ∧ d.must = 0) → Tracked (wanEgress rt w s l2).1 p.tuples.five d) ∧
+    ((d.ob = OUTBOUND_DIRECT ∧ d.mark = 0 ∧ d.must = 0) → NoDecision (wanEgress rt w s l2).1 p.tuples.five) := by
+  intro d
+  rw [wanEgress_tcp rt w s l2 p hi hp ht]
+  unfold wanEgressTcp
+  simp only [hs, ha, Bool.not_false, Bool.and_self, if_true]
+  unfold wanTcpSyn
+  have hneg : ¬ rt (wanRouteIn s p true (ppName (pidIsControlPlane w s).pp) (if l2 then p.ethSrc else zeros 6)) < 0 := by
+    omega
+  simp only [hcp, Bool.false_eq_true, if_false, hneg]
+  have hc' : connRoom (pidIsControlPlane w s).w p.tuples.five :=
+    (connRoom_congr (pidIsControlPlane_conn w s) (pidIsControlPlane_rest w s) _).mpr hc
+  rw [markTcpSeen_syn_room _ p.tuples.five false (p.fin || p.rst) _ hc']
+  constructor
+  · intro hnp
+    have hrt' : (if (decide (d.ob = OUTBOUND_DIRECT) && d.mark == 0 && d.must == 0) = true then none
+        else some (d.ob, d.mark, d.must)) = some (d.ob, d.mark, d.must) := by
+      have : (decide (d.ob = OUTBOUND_DIRECT) && d.mark == 0 && d.must == 0) = false := by
+        cases hx : (decide (d.ob = OUTBOUND_DIRECT) && d.mark == 0 && d.must == 0)
+        · rfl
+        · exfalso; apply hnp
+          simp only [Bool.and_eq_true, decide_eq_true_eq, beq_iff_eq] at hx
+          exact ⟨hx.1.1, hx.1.2, hx.2⟩
+      simp [this]
+    unfold Tracked
+    simp only [d, hrt', wanVerdict_conn]
+    exact ⟨_, alookup_erase_append_self (pidIsControlPlane w s).w.conn p.tuples.five _, by simp [newConnState], rfl, rfl⟩
+  · intro hpl
+    have hrt' : (if (decide (d.ob = OUTBOUND_DIRECT) && d.mark == 0 && d.must == 0) = true then none
+        else some (d.ob, d.mark, d.must)) = none := by
+      simp [hpl.1, hpl.2.1, hpl.2.2]
+    simp only [d, hrt']
+    intro cs hl
+    simp only [wanVerdict_conn] at hl
+    rw [alookup_erase_append_self (pidIsControlPlane w s).w.conn p.tuples.five _] at hl
+    injection hl with hl
+    rw [← hl]; rfl
+
+theorem wan_new_udp_becomes_tracked (rt : RouteIn → Int) (w : World) (s : Skb) (l2 : Bool) (p : Pkt)
+    (hi : s.ingressIf = 0) (hp : parsePacket s.raw l2 = .pkt p) (ht : p.l4proto = IPPROTO_UDP)
+    (hsl : shortLivedUdp p.tuples.five = false) (hcp : (pidIsControlPlane w s).isCp = false)
+    (hnew : ∀ cs, udpLive w p.tuples.five = some cs → cs.hasRouting = 0 ∧ cs.wanDir = false)
+    (hc : udpLive w p.tuples.five = none → connRoom w p.tuples.five)
+    (hr : 0 ≤ rt (wanRouteIn s p false (ppName (pidIsControlPlane w s).pp) p.ethSrc)) :
+    Tracked (wanEgress rt w s l2).1 p.tuples.five
+      (unpackRoute (rt (wanRouteIn s p false (ppName (pidIsControlPlane w s).pp) p.ethSrc))) := by
+  rw [wanEgress_udp rt w s l2 p hi hp ht]
+  unfold wanEgressUdp
+  simp only [hcp, Bool.false_eq_true, if_false, hsl, Bool.not_false, if_true]
+  have hrest0 := pidIsControlPlane_rest w s
+  have hconn0 := pidIsControlPlane_conn w s
+  have hst : ∃ cs, (markUdpSeen (pidIsControlPlane w s).w p.tuples.five false {}).2 = some cs ∧
+      cs.wanDir = false ∧ cs.hasRouting = 0 ∧
+      alookup (markUdpSeen (pidIsControlPlane w s).w p.tuples.five false {}).1.conn p.tuples.five = some cs := by
+    cases hl : udpLive (pidIsControlPlane w s).w p.tuples.five with
+    | none =>
+      have hl' : udpLive w p.tuples.five = none := by rw [← udpLive_congr hconn0 hrest0]; exact hl
+      rw [markUdpSeen_new_room _ _ false _ hl ((connRoom_congr hconn0 hrest0 _).mpr (hc hl'))]
+      refine ⟨_, rfl, ?_, ?_, ?_⟩
+      · rfl
+      · rfl
+      · exact alookup_erase_append_self _ _ _
+    | some cs =>
+      have hl' : udpLive w p.tuples.five = some cs := by rw [← udpLive_congr hconn0 hrest0]; exact hl
+      rw [markUdpSeen_live _ _ false _ cs hl]
+      obtain ⟨t, ht'⟩ := touchUdp_eq cs (pidIsControlPlane w s).w.now {} rfl
+      refine ⟨_, rfl, ?_, ?_, alookup_areplace_self _ _ _ _ (udpLive_lookup _ _ cs hl)⟩
+      · rw [ht']; exact (hnew cs hl').2
+      · rw [ht']; exact (hnew cs hl').1
+  obtain ⟨cs, hm, hw, hr0, hlk⟩ := hst
+  rw [hm]
+  obtain ⟨cs', h1, h2, h3, h4⟩ := wanUdpRouted_untracked_tracked rt _ s l2 p (pidIsControlPlane w s).pp cs hw hr0 hr
+    (dport_ne_53_of_not_shortLived _ (by rw [parsePacket_l4 hp, ht]) hsl) hlk
+  exact ⟨cs', h1, h3, h4, h2⟩
+
 /-! ## Flows that must never be captured -/
 
 /-- **A TCP flow without a cached decision is never captured**, for as long as nobody but dae opens
@@ -141,6 +273,44 @@ theorem wan_originated_tcp_replies_pass (w : World) (s : Skb) (l2 : Bool) (c : C
     AllPass (getTuples c).five.rev (wanIngress w s l2).1 evs :=
   (undecided_tcp_flow_passes _ (by rw [rev_l4, getTuples_l4, ht]) evs _ henv
     (wan_ingress_syn_marks_reverse_tuple w s l2 c hp ht hs ha).1 hnew).1
+
+/-- **A pure SYN in the REVERSE direction restarts tracking, as a WAN-originated connection** — also
+when the forward direction `k` was a tracked flow with a cached decision.  On WAN ingress and on LAN
+egress a frame `syn && !ack` whose reversed tuple is `k` replaces whatever entry `k` had by one
+without a decision (flagged WAN-originated when there is room); from then on every frame of `k` on
+the capturing hooks passes untouched (`AllPass`), along any run, until a new connection is opened on
+`k` from the LAN / local side.  This is the code's reading of "tracking restarts on a new SYN": the
+kernel cannot tell a new inbound connection (or a simultaneous open) on a re-used 4-tuple from a
+spoofed SYN, so a proxied or blocked flow hit by such a frame is no longer proxied / blocked
+(`design_notes/C03.md`, observation "reverse SYN"). -/
+theorem reverse_syn_restarts_tracking_as_wan_originated (rt : RouteIn → Int) (w : World) (h : Hook) (s : Skb)
+    (l2 : Bool) (c : Ctx) (hh : h = .wanIngress ∨ h = .lanEgress)
+    (hp : parseTransport s.raw l2 = .ret 0 c) (ht : c.l4proto = IPPROTO_TCP)
+    (hs : c.tcpSyn = true) (ha : c.tcpAck = false)
+    (evs : List Event) (henv : ∀ e ∈ evs, EnvOk e)
+    (hnew : NoNewConnection (getTuples c).five.rev (step rt w h s l2).1 evs) :
+    NoDecision (step rt w h s l2).1 (getTuples c).five.rev ∧
+    (connRoom w (getTuples c).five.rev → WanOriginated (step rt w h s l2).1 (getTuples c).five.rev) ∧
+    AllPass (getTuples c).five.rev (step rt w h s l2).1 evs := by
+  have hstep : (step rt w h s l2).1 = reverseRefresh w c := by
+    have hn : ¬ (IPPROTO_TCP = IPPROTO_ICMPV6) := by decide
+    rcases hh with rfl | rfl
+    · simp [step, wanIngress, hp]
+    · simp [step, lanEgress, hp, ht, hn]
+  have hrr : reverseRefresh w c =
+      (markTcpSeen w (getTuples c).five.rev true true (c.tcpFin || c.tcpRst) {}).1 := by
+    unfold reverseRefresh; simp [ht, hs, ha]
+  have hnd : NoDecision (step rt w h s l2).1 (getTuples c).five.rev := by
+    rw [hstep, hrr]
+    unfold markTcpSeen
+    rw [tcpLive_syn]
+    simp only [if_true]
+    exact createConn_noDecision _ _ _ _ _ rfl
+  refine ⟨hnd, ?_, ?_⟩
+  · intro hroom
+    rw [hstep, hrr, markTcpSeen_syn_room w _ true _ {} hroom]
+    exact ⟨_, alookup_erase_append_self _ _ _, rfl, rfl⟩
+  · exact (undecided_tcp_flow_passes _ (by rw [rev_l4, getTuples_l4, ht]) evs _ henv hnd hnew).1
 
 /-- **WAN ingress marks the reversed tuple (UDP, not port 53)** when the reply direction has no live
 entry yet. -/
